@@ -45,9 +45,10 @@ def rfcEvent : Kind → Nat
 def isStartEvent (n : Nat) : Bool := n == 1 || (3 ≤ n && n ≤ 7)
 
 /-- RFC 4271 section 8.2.2, next state per (state, event number).  `delayOpen` is the
-DelayOpen attribute, `dopRunning` "the DelayOpenTimer is running".  `none`: the RFC
-makes the outcome depend on connection collision detection (section 6.8), which the
-implementation does not have (those arms are `todo!()`). -/
+DelayOpen attribute, `dopRunning` "the DelayOpenTimer is running".  The function is total in
+fact (it never returns `none`; the `Option` is kept for the callers): where the RFC mentions
+connection collision detection (section 6.8: Event 19 in OpenConfirm / Established) the row is
+fixed to the one next state the RFC names there, Idle. -/
 def rfcTable (delayOpen dopRunning : Bool) : State → Nat → Option State
   /- Idle state: "In response to a ManualStart event (Event 1) or an AutomaticStart event
      (Event 3), the local system … changes its state to Connect."  "In response to a
@@ -933,14 +934,20 @@ def rfcNextTick (cfg : Cfg) (s : St) : TickInput → Option State
   | .frame m => rfcNextInput cfg s m
   | .direct i => rfcNextInput cfg s i
   | .closed => rfcTable cfg.delayOpen s.dop s.state 18
+  | .readErr => rfcTable cfg.delayOpen s.dop s.state 21        -- a malformed frame is BGPHeaderErr (Event 21); a close
+                                                               -- in mid-frame (Event 18) has the same RFC next state except from OpenSent;
+                                                               -- both are K8 and excluded from `tick_conforms_partial`
   | .cmdDisconnect => rfcTable cfg.delayOpen s.dop s.state 2   -- a stop command is ManualStop (Event 2)
   | .cmdKeepalive => some s.state                              -- no FSM event
 
 /-- K8, the recorded deviation of `tick` itself: it sets `State::Connect` when `handle_msg`
-returned `Err` and when the connection was closed (session.rs:284-313). -/
+returned `Err`, when the connection was closed and when `read_frame` failed (malformed frame, peer
+closing in the middle of a frame: no BgpHeaderErr / TcpConnectionFails event is raised, no
+NOTIFICATION sent) (session.rs:284-322). -/
 def isK8 (t : TickInput) (ok : Bool) : Bool :=
   match t with
   | .closed => true
+  | .readErr => true
   | .frame _ => !ok
   | _ => false
 
@@ -973,6 +980,7 @@ theorem tick_conforms_partial (cfg : Cfg) (s s' : St) (t : TickInput) (ok : Bool
     rfcNextTick cfg s t = some s'.state := by
   cases t with
   | closed => simp [isK8] at hk8
+  | readErr => simp [isK8] at hk8
   | cmdKeepalive =>
     simp only [tickStep] at h
     injection h with h
@@ -1010,5 +1018,155 @@ theorem tick_conforms_partial (cfg : Cfg) (s s' : St) (t : TickInput) (ok : Bool
           injection h with h1 h2 h3
           subst h1
           exact input_conforms_partial cfg s s2 m true outs2 hh (hk5 m rfl)
+
+/-! ## clause 2 through `Session::tick` (the stop path production code has) -/
+
+/-- **Clause 2 for `Command::Disconnect(Shutdown)`**, the application's stop command handled
+inline by `Session::tick` (no `ManualStop` event is raised by production code): in EVERY state
+and for every session the command sends the Cease NOTIFICATION (6/2, Administrative Shutdown),
+releases the connection and leaves the FSM in Idle. -/
+theorem cmd_disconnect_cease (cfg : Cfg) (s s' : St) (ok : Bool) (outs : List Out)
+    (h : tickStep cfg s .cmdDisconnect = .res (.next s' ok outs)) :
+    s'.conn = false ∧ Out.pduNotification 6 2 ∈ outs ∧ s'.state = .idle ∧ ok = true := by
+  simp only [tickStep] at h
+  injection h with h
+  injection h with h1 h2 h3
+  refine ⟨?_, ?_, ?_, h2.symm⟩
+  · rw [← h1, exec_conn]; simp [cmdDisconnectActs, drops]
+  · rw [← h3]
+    exact exec_notifs cfg defaultOpen s cmdDisconnectActs (6, 2) (by simp [cmdDisconnectActs, notifsOf, Reason.notif])
+  · rw [← h1, exec_state]; simp [cmdDisconnectActs, finalState]
+
+/-- ... in the RFC's words: the stop command satisfies what 8.2.2 asks of ManualStop (Event 2) in
+the states that follow the sending of an OPEN. -/
+theorem cmd_disconnect_notif_conforms (cfg : Cfg) (s s' : St) (ok : Bool) (outs : List Out)
+    (h : tickStep cfg s .cmdDisconnect = .res (.next s' ok outs)) :
+    NotifConforms s.state .manualStop s' outs := by
+  obtain ⟨hc, hn, _, _⟩ := cmd_disconnect_cease cfg s s' ok outs h
+  intro code sub hr
+  have h62 : code = 6 ∧ sub = none := by
+    unfold rfcNotif at hr
+    cases hst : s.state <;> simp [hst, rfcEvent] at hr <;> exact ⟨hr.1.symm, hr.2.symm⟩
+  obtain ⟨rfl, rfl⟩ := h62
+  exact ⟨hc, 2, hn, by intro x hx; cases hx⟩
+
+/-- **Clause 2 for everything `tick` processes**: a frame read from the socket (or an input fed
+directly) whose event the RFC answers with a NOTIFICATION in OpenSent / OpenConfirm /
+Established – a forbidden message, a hold-timer expiry, a stop – emits that NOTIFICATION and
+releases the connection, also when `tick` then overrides the state (K8 concerns the state
+only). No exclusion; `s` is any session state, so this holds at every position of every history
+(`runTick` is `tickStep` iterated). -/
+theorem tick_notif_conforms (cfg : Cfg) (s s' : St) (t : TickInput) (ok : Bool) (outs : List Out)
+    (h : tickStep cfg s t = .res (.next s' ok outs)) (i : Input) (hi : inputOfTick t = some i)
+    (e : Event) (he : eventOfInput cfg s i = some e) :
+    NotifConforms s.state (kindOf cfg e) s' outs := by
+  cases t with
+  | closed => simp [inputOfTick] at hi
+  | readErr => simp [inputOfTick] at hi
+  | cmdKeepalive => simp [inputOfTick] at hi
+  | cmdDisconnect => simp [inputOfTick] at hi
+  | direct j =>
+    simp only [inputOfTick, Option.some.injEq] at hi
+    subst hi
+    simp only [tickStep] at h
+    injection h with h
+    exact input_notif_conforms cfg s s' j ok outs h e he
+  | frame m =>
+    simp only [inputOfTick, Option.some.injEq] at hi
+    subst hi
+    simp only [tickStep] at h
+    cases hc : s.conn with
+    | false => simp [hc] at h
+    | true =>
+      simp only [hc, Bool.not_true, Bool.false_eq_true, if_false] at h
+      cases hh : handleInput cfg s m with
+      | todo => simp [hh] at h
+      | panic => simp [hh] at h
+      | next s2 ok2 outs2 =>
+        have hn := input_notif_conforms cfg s s2 m ok2 outs2 hh e he
+        cases ok2 with
+        | true =>
+          simp only [hh] at h
+          injection h with h
+          injection h with h1 h2 h3
+          subst h1; subst h3; exact hn
+        | false =>
+          simp only [hh] at h
+          injection h with h
+          injection h with h1 h2 h3
+          subst h3
+          intro code sub hr
+          obtain ⟨hcn, sc, hm, hx⟩ := hn code sub hr
+          refine ⟨?_, sc, hm, hx⟩
+          rw [← h1]; exact hcn
+
+example : tickStep ⟨false, true, true, true, [], 90, [65001]⟩ ⟨.established, false, true, true, false, 0, true, none⟩ .cmdDisconnect
+    = .res (.next ⟨.idle, false, false, false, false, 0, false, none⟩ true [.pduNotification 6 2]) := by decide
+
+/-! ## the outgoing PDU queue: `send_pdu` is a `try_send` (known finding K14) -/
+
+/-- everything a step sends reaches the queue when there is room for its PDUs -/
+theorem accepted_all (room : Nat) (outs : List Out) (h : pduCount outs ≤ room) :
+    accepted room outs = outs := by
+  induction outs generalizing room with
+  | nil => rfl
+  | cons o rest ih =>
+    unfold accepted
+    cases hp : o.isPdu with
+    | false =>
+      simp only [Bool.false_eq_true, if_false]
+      rw [ih room (by simpa [pduCount, List.filter, hp] using h)]
+    | true =>
+      simp only [if_true]
+      have hc : pduCount rest + 1 ≤ room := by simpa [pduCount, List.filter, hp] using h
+      cases room with
+      | zero => omega
+      | succ r => simp only; rw [ih r (by omega)]
+
+/-- what goes to the application channel (`send().await`) does not depend on the outgoing queue:
+clauses 3 and 4 are not affected by K14 -/
+theorem accepted_keeps_app (room : Nat) (outs : List Out) (o : Out) (ho : o.isPdu = false) :
+    o ∈ accepted room outs ↔ o ∈ outs := by
+  induction outs generalizing room with
+  | nil => simp [accepted]
+  | cons x rest ih =>
+    unfold accepted
+    cases hx : x.isPdu with
+    | false => simp [ih room]
+    | true =>
+      have hne : o ≠ x := by intro h; rw [h, hx] at ho; cases ho
+      cases room with
+      | zero => simp [ih 0, hne]
+      | succ r => simp [ih r, hne]
+
+/-- The full statement of clause 2 at the point where the PDU leaves the session: the
+NOTIFICATION the RFC names is in the outgoing queue after the step, whatever room the
+application left in it. -/
+def NotifQueuedStatement : Prop :=
+  ∀ (cfg : Cfg) (s : St) (e : Event) (s' : St) (ok : Bool) (outs : List Out) (room : Nat),
+    step cfg s e = .next s' ok outs → NotifConforms s.state (kindOf cfg e) s' (accepted room outs)
+
+/-- K14 witness: Established, HoldTimer_Expires, no free slot in `pdu_out`: the session goes to
+Idle and releases the connection, the Hold Timer Expired NOTIFICATION is dropped by `try_send`
+(request `h d0n1p1x1a0h90 6:01101 q0 e6`). -/
+theorem notif_queued_fails : ¬ NotifQueuedStatement := by
+  intro h
+  have := h ⟨false, true, true, true, [], 90, [65001]⟩ ⟨.established, false, true, true, false, 0, true, none⟩
+    .holdTimerExpires ⟨.idle, false, false, false, false, 1, false, none⟩ true [.pduNotification 4 0] 0 (by decide)
+    4 none (by decide)
+  obtain ⟨_, sc, hm, _⟩ := this
+  simp [accepted, Out.isPdu] at hm
+
+/-- **Clause 2 at the outgoing queue**, `_partial`: with room for the PDUs of the step (in every
+arm the NOTIFICATION is the first PDU sent, so one free slot suffices for it) the NOTIFICATION
+the RFC names is queued and the connection released. Excluded: a full queue (K14,
+`notif_queued_fails`). -/
+theorem notif_queued_partial (cfg : Cfg) (s : St) (e : Event) (s' : St) (ok : Bool) (outs : List Out)
+    (room : Nat) (h : step cfg s e = .next s' ok outs) (hroom : pduCount outs ≤ room) :
+    NotifConforms s.state (kindOf cfg e) s' (accepted room outs) := by
+  rw [accepted_all room outs hroom]
+  exact step_notif_conforms cfg s e s' ok outs h
+
+example : pduCount [Out.pduNotification 4 0] ≤ 1 := by decide
 
 end Rc.Thm.C08
